@@ -226,7 +226,10 @@ Definition oinc_of (p : (list opcode * option nat) * iobs) : oinc :=
 Definition prop_verdict (c : vcase) : nat :=
   match c with
   | CHist _ _ _ h obs => obs_verdict (map oinc_of (combine h obs)) [] None
-  | CHistFrom _ _ _ _ h obs => obs_verdict (map oinc_of (combine h obs)) [] None
+  | CHistFrom _ _ _ init h obs =>
+      (* the requests an earlier run left stored were accepted by it *)
+      let '(_, _, _, _, items) := init in
+      obs_verdict (map oinc_of (combine h obs)) (map (fun p => EvAccepted (snd p)) items) None
   | _ => 0
   end.
 
